@@ -37,7 +37,7 @@ def run(tier, seed):
     wd = vlib.workdir('C10')
     T = {g.name: g for g in families.t_sets() + families.g_err() + families.g_dir()}
     if tier == 'quick': plan = [('nlterm', [3], 1, 0), ('abcd', [3], 1, 1), ('er1', [3], 1, 1)]
-    else: plan = [(n, [2, 3, 4], 1, 0) for n in ('nlterm', 'kwid', 'eqeq', 'hi')] + [(n, [2, 3, 4], 1, 1) for n in ('nlterm', 'kwid', 'abcd', 'num', 'er1', 'er2', 'etf')] + [('nlterm', [2, 3], 0, 0)]
+    else: plan = [(n, [2, 3], 1, 0) for n in ('nlterm', 'kwid', 'eqeq', 'hi')] + [(n, [2, 3], 1, 1) for n in ('nlterm', 'kwid', 'abcd', 'num', 'er1', 'er2', 'etf')] + [('nlterm', [2, 3], 0, 0), ('nlterm', [4], 1, 1), ('er1', [4], 1, 1)]
     for n, Ls, ws, nl in plan:
         cp.run_parse_property('C10', tier, seed, [(T[n], Ls)], ['accept', 'positions', 'messages'], '', ['inputs longer than LEN in the end-to-end queries', 'line / column counters wrapping at 2^32'],
                               ['kernel: one update step from an ARBITRARY (line, column) over an arbitrary range <= 8 bytes (induction over history length)',
